@@ -48,6 +48,19 @@ Oracle (independent of the model): occurrences and their positions from CPython'
 (end_col_offset), expected text by splicing, tree comparison by an independent renamer of the ast dump
 and of the parsed JSON, stored parsed forms re-parsed with parse_predicate_formula(_json).
 
+Summary tables (engine level).  Most generated documents, and one fixed history on every run
+(fixed_summary_history), have summary tables carrying ACL resources / rules, a user attribute's lookup
+table, dropdown conditions (choice.X of Ref/RefList columns that point to a summary table; rec.X/$X of a
+Ref column OF a summary table) and trigger conditions.  Renaming the source column of a group-by column
+renames the group-by column AND the summary table (T_summary_a -> T_summary_b) in one user action; the
+engine's rename bookkeeping is keyed by table id, so the rules must be rewritten while the old table id is
+still current.  The oracle reads the column renames and table renames of a bundle off the metadata
+(before/after, by row id), keyed by the table id BEFORE the bundle, and demands of every formula, resource
+colIds and lookupColId exactly the old text with those references renamed (and tableId following the table
+rename).  The Lean tie for these is the same per-formula tie as for ordinary tables (the model recomputes
+the text from the observed renames); the ordering inside _updateColumnRecords is not modelled.
+Counters eng_summary_*: how many such bundles / formulas / colIds / lookupColIds each run exercised.
+
 Findings on the unchanged tree (known_findings.json): unparsable text makes process_renames raise
 SyntaxError (get_dollar_replacer is called before the try) — and, through the engine, an unparsable
 dropdown condition makes every RenameColumn fail; dropdown conditions stored on view FIELDS are not
@@ -862,18 +875,55 @@ def gen_history(rng):
           ("T3", "r3", "Ref:T3")]
   for t, c, ty in refs:
     setup.append([["AddColumn", t, c, {"type": ty}]])
+  # summary tables (most histories): their ids are only known at run time (placeholders "@sumId" / "@sumRef" name the
+  # table created by setup bundle n); columns = the group-by columns + count (+ a formula column of our own)
+  sums = []
+  if rng.random() < 0.85:
+    seen = set()
+    # NB columns we add to summary tables get names that are unique per summary table: same-named formula columns of
+    # the summary tables of one source table are "sister columns" which the engine keeps in sync by design (an update
+    # of one's widgetOptions is copied to the others), which is not what C17 is about
+    for _ in range(rng.choice([1, 1, 2, 2, 3])):
+      src = rng.choice(TABLES)
+      gb = sorted(rng.sample(tables[src], rng.choice([1, 1, 1, 2])))
+      if (src, tuple(gb)) in seen:
+        continue
+      seen.add((src, tuple(gb)))
+      setup.append([["CreateViewSection", ["tableRef", src], 0, "record", [["@colRef", src, c] for c in gb], None]])
+      s = {"n": len(setup) - 1, "src": src, "gb": gb, "cols": gb + ["count"]}
+      if rng.random() < 0.6:
+        tot = "tot%d" % len(sums)
+        setup.append([["AddColumn", ["@sumId", s["n"], ""], tot, {"type": "Numeric", "isFormula": True, "formula": "1"}]])
+        s["cols"].append(tot)
+      sums.append(s)
+  sum_refs = []      # (table, column, summary) : Ref/RefList columns that point to a summary table; a Ref column OF a summary table
+  for i, s in enumerate(sums):
+    if rng.random() < 0.8:
+      t = rng.choice(TABLES)
+      setup.append([["AddColumn", t, "rs%d" % i, {"type": ["@sumId", s["n"], rng.choice(["Ref:", "RefList:"])]}]])
+      sum_refs.append((t, "rs%d" % i, tables[t] + s["cols"]))
+    if rng.random() < 0.5:
+      rt = rng.choice(TABLES)
+      setup.append([["AddColumn", ["@sumId", s["n"], ""], "sr%d" % i, {"type": "Ref:" + rt, "isFormula": True, "formula": "None"}]])
+      sum_refs.append((["@sumId", s["n"], ""], "sr%d" % i, s["cols"] + tables[rt]))
   # user attributes
   attrs = {}
   setup.append([["AddRecord", "_grist_ACLResources", -1, {"tableId": "*", "colIds": "*"}]])
   forms.append({"where": "resource", "n": len(setup) - 1})
   star = len(setup) - 1
-  def add_attr(name, t):
-    lc = rng.choice(tables[t])
+  def add_attr(name, t, cols=None):
+    lc = rng.choice(cols or tables[t])
     attrs[name] = t
     setup.append([["AddRecord", "_grist_ACLRules", None,
                    {"resource": ("ret", star),
-                    "userAttributes": json.dumps({"name": name, "tableId": t, "lookupColId": lc, "charId": "Email"})}]])
+                    "userAttributes": ["@json", {"name": name, "tableId": t, "lookupColId": lc, "charId": "Email"}]}]])
     forms.append({"where": "userattr", "n": len(setup) - 1})
+  attr_cols_all = {"School": tables["T2"], "Other": tables["T3"]}
+  if sums and rng.random() < 0.8:
+    # a user attribute looked up in a summary table, mostly by a group-by column
+    s = rng.choice(sums)
+    add_attr("Sum", ["@sumId", s["n"], ""], cols=s["gb"] if rng.random() < 0.8 else s["cols"])
+    attr_cols_all["Sum"] = s["cols"]
   # a user attribute may be defined before or after (= with a higher rule id than) the rules using it
   late = [(name, t) for name, t in (("School", "T2"), ("Other", "T3")) if rng.random() < 0.5]
   for name, t in (("School", "T2"), ("Other", "T3")):
@@ -888,10 +938,23 @@ def gen_history(rng):
     res = len(setup) - 1
     for _ in range(rng.randint(1, 2)):
       lex = valid_formula(rng, "acl", rng.choice([1, 2, 3]), cols=tables[t] + rng.sample(tables["T2"] + tables["T3"], 2),
-                          attr_cols={"School": tables["T2"], "Other": tables["T3"]} if rng.random() < 0.6 else None)
+                          attr_cols=attr_cols_all if rng.random() < 0.6 else None)
       setup.append([["AddRecord", "_grist_ACLRules", None,
                      {"resource": ("ret", res), "aclFormula": print_lex(lex, "O"), "permissionsText": "none"}]])
       forms.append({"where": "acl", "n": len(setup) - 1, "lex": lex})
+  # resources + rules on summary tables
+  for s in sums:
+    if rng.random() < 0.85:
+      colids = ",".join(rng.sample(s["cols"], rng.randint(1, len(s["cols"])))) if rng.random() < 0.8 else "*"
+      setup.append([["AddRecord", "_grist_ACLResources", -1, {"tableId": ["@sumId", s["n"], ""], "colIds": colids}]])
+      forms.append({"where": "resource", "n": len(setup) - 1})
+      res = len(setup) - 1
+      for _ in range(rng.randint(1, 2)):
+        lex = valid_formula(rng, "acl", rng.choice([1, 2, 3]), cols=s["cols"] + s["gb"] + rng.sample(tables[s["src"]], 2),
+                            attr_cols=attr_cols_all if rng.random() < 0.6 else None)
+        setup.append([["AddRecord", "_grist_ACLRules", None,
+                       {"resource": ("ret", res), "aclFormula": print_lex(lex, "O"), "permissionsText": "none"}]])
+        forms.append({"where": "acl", "n": len(setup) - 1, "lex": lex})
   for name, t in late:
     add_attr(name, t)
   # dropdown conditions
@@ -902,10 +965,20 @@ def gen_history(rng):
       setup.append([["ModifyColumn", t, c, {"widgetOptions": json.dumps(
           {"dropdownCondition": {"text": print_lex(lex, "O")}, "alignment": "left"})}]])
       forms.append({"where": "dc", "table": t, "col": c, "lex": lex})
-  # triggers
-  for t in TABLES:
-    if rng.random() < 0.8:
-      lex = valid_formula(rng, "trigger", rng.choice([1, 2, 3]), cols=tables[t])
+  for t, c, cols in sum_refs:
+    lex = valid_formula(rng, "dc", rng.choice([1, 2, 3]), cols=cols)
+    setup.append([["ModifyColumn", t, c, {"widgetOptions": json.dumps(
+        {"dropdownCondition": {"text": print_lex(lex, "O")}, "alignment": "left"})}]])
+    forms.append({"where": "dc", "table": t, "col": c, "lex": lex})
+  # triggers (on the three tables and on summary tables)
+  for t in TABLES + [s for s in sums if rng.random() < 0.85]:
+    if isinstance(t, dict) or rng.random() < 0.8:
+      if isinstance(t, dict):
+        lex = valid_formula(rng, "trigger", rng.choice([1, 2, 3]), cols=t["cols"] + t["gb"])
+        tr = ["@sumRef", t["n"]]
+      else:
+        lex = valid_formula(rng, "trigger", rng.choice([1, 2, 3]), cols=tables[t])
+        tr = ("tableRef", t)
       mode = rng.choice(["plain", "text", "config"])
       text = print_lex(lex, "O")
       if mode == "plain":
@@ -916,13 +989,22 @@ def gen_history(rng):
           pass
       cond = text if mode == "plain" else (json.dumps({"text": text}) if mode == "text" else
                                            json.dumps({"config": {"customExpression": text, "columnFilters": []}}))
-      setup.append([["AddRecord", "_grist_Triggers", None, {"tableRef": ("tableRef", t), "condition": cond}]])
+      setup.append([["AddRecord", "_grist_Triggers", None, {"tableRef": tr, "condition": cond}]])
       forms.append({"where": "trigger", "n": len(setup) - 1, "lex": lex, "mode": "config" if mode == "config" else "text"})
   # rename steps
   steps = []
   for _ in range(rng.randint(8, 14)):
     r = rng.random()
     t = rng.choice(TABLES + ["T2", "T3"])     # the user attributes' lookup tables a little more often
+    if sums and r < 0.3:
+      # rename the SOURCE column of a group-by column of a summary table (renames the summary table as well)
+      steps.append(("GroupBy", rng.random(), rng.random(), rng.random(), rng.choice(ENG_NEW + ["count", "group"])))
+      continue
+    if sums and r < 0.38:
+      # rename a column of a summary table directly (allowed for its formula columns only)
+      steps.append(("SummaryCol", rng.random(), rng.random(), rng.choice(ENG_NEW)))
+      continue
+    r = rng.random()
     if r < 0.5:
       steps.append(("RenameColumn", t, rng.random(), rng.choice(ENG_NEW)))
     elif r < 0.62:
@@ -934,6 +1016,101 @@ def gen_history(rng):
     else:
       steps.append(("ModifyColId", t, rng.random(), rng.choice(ENG_NEW)))
   return {"setup": setup, "forms": forms, "steps": steps}
+
+
+def lexify(text):
+  """lexemes of a hand-written formula in which every `.name` is an Attribute node and every `$name` a dollar
+  reference (no floats, no dots or dollars inside strings / comments); used for the fixed witnesses only"""
+  import re
+  lex, pos = [], 0
+  for m in re.finditer(r"\$([A-Za-z_]\w*)|(?<=\.)([A-Za-z_]\w*)", text):
+    if m.start() > pos:
+      lex.append(["o", text[pos:m.start()]])
+    lex.append(["d", m.group(1)] if m.group(1) else ["a", m.group(2)])
+    pos = m.end()
+  if pos < len(text):
+    lex.append(["o", text[pos:]])
+  assert print_lex(lex, "O") == text
+  return lex
+
+
+def fixed_summary_history():
+  """The fixed witness of the summary-table situations: table T(a, n, z) with the summary tables T_summary_a (setup
+  bundle 2) and T_summary_a_n (bundle 3); ACL resources + rules on both, a user attribute looked up in T_summary_a_n,
+  dropdown conditions of Ref / RefList columns that point to them (choice.X) and of a Ref column OF a summary table
+  (rec.X / $X), trigger conditions on both.  Steps: renames of the SOURCE columns of the group-by columns (each also
+  renames the summary tables in the same user action), by every route, a swap of two of them, renames of non-group-by
+  columns, of the source table, and of a formula column of a summary table (and its sister column)."""
+  A, B = 2, 3
+  setup = [
+    [["AddTable", "T", [{"id": "a", "type": "Text"}, {"id": "n", "type": "Int"}, {"id": "z", "type": "Text"}]]],
+    [["AddTable", "U", [{"id": "a", "type": "Text"}, {"id": "k", "type": "Text"}]]],
+    [["CreateViewSection", ["tableRef", "T"], 0, "record", [["@colRef", "T", "a"]], None]],
+    [["CreateViewSection", ["tableRef", "T"], 0, "record", [["@colRef", "T", "a"], ["@colRef", "T", "n"]], None]],
+    [["AddColumn", "U", "r", {"type": ["@sumId", A, "Ref:"]}]],
+    [["AddColumn", "U", "rl", {"type": ["@sumId", B, "RefList:"]}]],
+    [["AddColumn", ["@sumId", A, ""], "sr", {"type": "Ref:U", "isFormula": True, "formula": "None"}]],
+  ]
+  forms = []
+
+  def add(bundle, **form):
+    setup.append(bundle)
+    if form:
+      forms.append(dict(form, n=len(setup) - 1) if form["where"] != "dc" else form)
+    return len(setup) - 1
+
+  def resource(table, colids):
+    return add([["AddRecord", "_grist_ACLResources", -1, {"tableId": table, "colIds": colids}]], where="resource")
+
+  def rule(res, text):
+    add([["AddRecord", "_grist_ACLRules", None, {"resource": ["ret", res], "aclFormula": text, "permissionsText": "none"}]],
+        where="acl", lex=lexify(text))
+
+  def dc(table, col, text):
+    add([["ModifyColumn", table, col, {"widgetOptions": json.dumps({"dropdownCondition": {"text": text},
+                                                                    "alignment": "left"})}]],
+        where="dc", table=table, col=col, lex=lexify(text))
+
+  star = resource("*", "*")
+  add([["AddRecord", "_grist_ACLRules", None, {"resource": ["ret", star], "userAttributes": [
+      "@json", {"name": "Sum", "tableId": ["@sumId", B, ""], "lookupColId": "a", "charId": "Email"}]}]], where="userattr")
+  ra = resource(["@sumId", A, ""], "a,count")
+  rule(ra, 'rec.a == "x" and newRec.count > 1  # keep a')
+  rule(ra, "user.Sum.a == $a or user.Sum.n in [rec.count, rec.z]")
+  rb = resource(["@sumId", B, ""], "n,a")
+  rule(rb, "$n > 0 and not rec.a")
+  ru = resource("U", "a")
+  rule(ru, "rec.a == user.Sum.a and rec.k != user.Sum.count")
+  dc("U", "r", "choice.a == $a and choice.count > 0")
+  dc("U", "rl", "choice.n in [1, 2] or choice.a == rec.k")
+  dc(["@sumId", A, ""], "sr", "choice.a == $a and rec.count > 0")
+  add([["AddRecord", "_grist_Triggers", None, {"tableRef": ["@sumRef", A], "condition": json.dumps({"text": "$a != oldRec.a"})}]],
+      where="trigger", lex=lexify("$a != oldRec.a"), mode="text")
+  t2 = "rec.n > oldRec.n and $a"
+  add([["AddRecord", "_grist_Triggers", None, {"tableRef": ["@sumRef", B], "condition": json.dumps(
+      {"config": {"customExpression": t2, "columnFilters": []}})}]], where="trigger", lex=lexify(t2), mode="config")
+  t3 = '$a == "x" or oldRec.n'
+  add([["AddRecord", "_grist_Triggers", None, {"tableRef": ["tableRef", "T"], "condition": t3}]],
+      where="trigger", lex=lexify(t3), mode="text")
+  raw = lambda *ua: ("Raw", [list(ua)])
+  MC = "_grist_Tables_column"
+  col_a, col_n = ["@col0", "T", "a"], ["@col0", "T", "n"]      # the row ids of T.a / T.n (whatever they are called by then)
+  steps = [
+    raw("RenameColumn", "T", "a", "b"),                           # T_summary_a -> T_summary_b, T_summary_a_n -> T_summary_b_n
+    raw("UpdateRecord", MC, col_n, {"label": "n n"}),             # label route: n -> n_n
+    raw("RenameColumn", "T", "z", "zz"),                          # not a group-by column
+    raw("RenameColumn", ["@sumId", A, ""], "count", "cnt"),       # formula column of a summary table (+ its sister column)
+    raw("RenameColumn", ["@sumId", A, ""], "b", "q"),             # rejected: group-by column
+    raw("ModifyColumn", "T", "b", {"colId": "a"}),                # ModifyColumn ignores colId: nothing changes
+    raw("UpdateRecord", MC, col_a, {"colId": "a"}),
+    raw("RenameTable", "T", "V"),
+    raw("UpdateRecord", MC, col_a, {"colId": "n_n"}),             # n_n is taken: the engine picks another id
+    raw("BulkUpdateRecord", MC, [col_a, col_n], {"colId": ["n_n", "n_n2"]}),   # both group-by columns in one action
+    raw("RenameColumn", "U", "a", "b"),                           # an ordinary table's own `a`
+    raw("UpdateRecord", MC, col_n, {"colId": "count"}),
+    raw("UpdateRecord", MC, col_a, {"colId": "a2"}),
+  ]
+  return {"setup": setup, "forms": forms, "steps": steps, "fixed": "summary"}
 
 
 def _pick(lst, x):
@@ -954,22 +1131,49 @@ def run_history(ck, hist, level_tag="engine"):
         return r["id"]
     return 0
 
+  def resolve(x):
+    """placeholders of a history -> the ids of this run: ["ret", n] = return value of setup bundle n;
+    ["tableRef", T]; ["@colRef", T, col]; ["@sumRef", n] / ["@sumId", n, prefix] = row id / prefix + CURRENT table id
+    of the summary table that setup bundle n (a CreateViewSection) created; ["@col0", T, col] = row id of the column
+    that was T.col at the end of the setup; ["@json", obj] = json.dumps(resolved obj)"""
+    if isinstance(x, dict):
+      return {k: resolve(v) for k, v in x.items()}
+    if not isinstance(x, list):
+      return x
+    if len(x) == 2 and x[0] == "ret" and isinstance(x[1], int):
+      return rets[x[1]]
+    if len(x) == 2 and x[0] == "tableRef":
+      return tref(resolve(x[1]))
+    if len(x) == 3 and x[0] == "@colRef":
+      tr = tref(resolve(x[1]))
+      return ([c["id"] for c in doc.meta("_grist_Tables_column") if c["parentId"] == tr and c["colId"] == x[2]] + [0])[0]
+    if len(x) == 3 and x[0] == "@col0":
+      return col0.get((x[1], x[2]), 0)
+    if len(x) == 2 and x[0] == "@sumRef":
+      return rets[x[1]]["tableRef"]
+    if len(x) == 3 and x[0] == "@sumId":
+      return x[2] + [r["tableId"] for r in doc.meta("_grist_Tables") if r["id"] == rets[x[1]]["tableRef"]][0]
+    if len(x) == 2 and x[0] == "@json":
+      return json.dumps(resolve(x[1]))
+    return [resolve(y) for y in x]
+
   # ---- setup
   for n, bundle in enumerate(hist["setup"]):
-    b = json.loads(json.dumps(bundle))
-    for ua in b:
-      for arg in ua:
-        if isinstance(arg, dict):
-          for k, v in list(arg.items()):
-            if isinstance(v, list) and v[:1] == ["ret"]:
-              arg[k] = rets[v[1]]
-            elif isinstance(v, list) and v[:1] == ["tableRef"]:
-              arg[k] = tref(v[1])
+    b = resolve(json.loads(json.dumps(bundle)))
     res = doc.apply(b)
     if not res.ok:
       from gx.common import Infra
       raise Infra("setup bundle failed: %r -> %r" % (b, res.error))
     rets[n] = res.ret[0] if res.ret else None
+    if b[0][0] == "CreateViewSection":
+      # the ret value names the SOURCE table; the summary table is the one the new section shows
+      sec = [r for r in doc.meta("_grist_Views_section") if r["id"] == rets[n]["sectionRef"]][0]
+      rets[n] = {"tableRef": sec["tableRef"]}
+      if sec["tableRef"] not in [r["id"] for r in doc.meta("_grist_Tables") if r["summarySourceTable"]]:
+        from gx.common import Infra
+        raise Infra("setup: CreateViewSection %r did not create / reuse a summary table" % (b,))
+  tabs0 = {r["id"]: r["tableId"] for r in doc.meta("_grist_Tables")}
+  col0 = {(tabs0[c["parentId"]], c["colId"]): c["id"] for c in doc.meta("_grist_Tables_column")}   # as set up
   forms = []
   for f in hist["forms"]:
     g = dict(f)
@@ -977,13 +1181,15 @@ def run_history(ck, hist, level_tag="engine"):
       g["id"] = rets[g["n"]]
     if g["where"] == "dc":
       g["id"] = [c["id"] for c in doc.meta("_grist_Tables_column")
-                 if c["colId"] == g["col"] and c["parentId"] == tref(g["table"])][0]
+                 if c["colId"] == g["col"] and c["parentId"] == tref(resolve(g["table"]))][0]
     forms.append(g)
 
   def state():
     tabs = {r["id"]: r["tableId"] for r in doc.meta("_grist_Tables")}
     cols = {c["id"]: c for c in doc.meta("_grist_Tables_column")}
     return {"tabs": tabs, "cols": cols,
+            # old table id of every summary table
+            "sums": {r["id"]: r["tableId"] for r in doc.meta("_grist_Tables") if r["summarySourceTable"]},
             "res": {r["id"]: r for r in doc.meta("_grist_ACLResources")},
             "rules": {r["id"]: r for r in doc.meta("_grist_ACLRules")},
             "trig": {r["id"]: r for r in doc.meta("_grist_Triggers")}}
@@ -1042,16 +1248,47 @@ def run_history(ck, hist, level_tag="engine"):
   for si, step in enumerate(hist["steps"]):
     st = state()
     kind, t = step[0], step[1]
-    tabs_now = sorted(v for v in st["tabs"].values() if not v.startswith("_grist"))
-    tname = _pick(tabs_now, (TABLES.index(t) + 0.5) / 3.0)
-    tid = [k for k, v in st["tabs"].items() if v == tname][0]
-    tcols = sorted((c for c in st["cols"].values() if c["parentId"] == tid and c["colId"] != "manualSort"),
-                   key=lambda c: c["id"])
     hot_names = set(l[1] for g in forms if "lex" in g for l in g["lex"] if l[0] in "ad")
-    hot = [c for c in tcols if c["colId"] in hot_names]
-    if hot and kind != "RenameTable" and (step[2] * 7) % 1 < 0.8:
-      tcols = hot
-    if kind == "RenameColumn":
+    if kind in ("GroupBy", "SummaryCol"):
+      sid = _pick(sorted(st["sums"]), step[1])
+      if sid is None:
+        ck.count("eng_step_skipped_no_summary_table")
+        continue
+      scols = sorted((c for c in st["cols"].values() if c["parentId"] == sid), key=lambda c: c["id"])
+    elif kind != "Raw":
+      # the user tables proper (summary tables are renamed through their source table / by the two kinds above)
+      tabs_now = sorted(v for k, v in st["tabs"].items() if not v.startswith("_grist") and k not in st["sums"])
+      tname = _pick(tabs_now, (TABLES.index(t) + 0.5) / 3.0)
+      tid = [k for k, v in st["tabs"].items() if v == tname][0]
+      tcols = sorted((c for c in st["cols"].values() if c["parentId"] == tid and c["colId"] != "manualSort"),
+                     key=lambda c: c["id"])
+      hot = [c for c in tcols if c["colId"] in hot_names]
+      if hot and kind != "RenameTable" and (step[2] * 7) % 1 < 0.8:
+        tcols = hot
+    if kind == "Raw":
+      bundle = resolve(json.loads(json.dumps(step[1])))
+    elif kind == "GroupBy":
+      gbs = [c for c in scols if c["summarySourceCol"]]
+      hot = [c for c in gbs if c["colId"] in hot_names]
+      gcol = _pick(hot if hot and (step[2] * 7) % 1 < 0.7 else gbs, step[2])
+      if gcol is None:
+        ck.count("eng_step_skipped_no_groupby_column")
+        continue
+      src = st["cols"][gcol["summarySourceCol"]]
+      how = int(step[3] * 6)
+      if how <= 2:
+        bundle = [["RenameColumn", st["tabs"][src["parentId"]], src["colId"], step[4]]]
+      elif how == 3:
+        bundle = [["UpdateRecord", "_grist_Tables_column", src["id"], {"label": step[4]}]]
+      elif how == 4:
+        bundle = [["UpdateRecord", "_grist_Tables_column", src["id"], {"colId": step[4]}]]
+      else:
+        bundle = [["ModifyColumn", st["tabs"][src["parentId"]], src["colId"], {"colId": step[4]}]]
+    elif kind == "SummaryCol":
+      col = _pick([c for c in scols if c["colId"] != "group"], step[2])
+      # (new name unique per summary table: see the note on sister columns in gen_history)
+      bundle = [["RenameColumn", st["sums"][sid], col["colId"], "%s_s%d" % (step[3], sid)]]
+    elif kind == "RenameColumn":
       col = _pick(tcols, step[2])
       bundle = [["RenameColumn", tname, col["colId"], step[3]]]
     elif kind == "RenameTable":
@@ -1086,10 +1323,28 @@ def run_history(ck, hist, level_tag="engine"):
       ck.count("eng_col_renames", len(col_ren))
     if tab_ren:
       ck.count("eng_table_renames")
+    # ---- the summary-table situations of this bundle (table ids as they were BEFORE the bundle)
+    sum_ids = set(st["sums"].values())
+    sum_tab_ren = sorted(t_ for t_ in tab_ren if t_ in sum_ids)
+    sum_col_ren = sorted(k for k in col_ren if k[0] in sum_ids)
+    gb_ren = [k for k in sum_col_ren
+              if any(c["summarySourceCol"] for c in st["cols"].values() if (st["tabs"][c["parentId"]], c["colId"]) == k)]
+    if gb_ren and sum_tab_ren:
+      ck.count("eng_summary_groupby_col_and_table_renamed_in_one_action")
+    elif gb_ren:
+      ck.count("eng_summary_groupby_col_renamed_table_id_unchanged")
+    elif sum_col_ren:
+      ck.count("eng_summary_formula_col_renamed")
+    elif sum_tab_ren:
+      ck.count("eng_summary_table_renamed_with_source_table")
     rp = dict(replay, step=si)
     for g in forms:
       if g["where"] == "resource":
         a, b = st["res"][g["id"]], st2["res"][g["id"]]
+        if a["tableId"] in sum_ids:
+          ck.count("eng_summary_resource_checks")
+          if a["colIds"] not in ("", "*") and any((a["tableId"], c) in col_ren for c in a["colIds"].split(",")):
+            ck.count("eng_summary_resource_colids_to_rename" + ("_with_table_rename" if a["tableId"] in tab_ren else ""))
         exp_t = tab_ren.get(a["tableId"], a["tableId"])
         exp_c = a["colIds"]
         if a["colIds"] and a["colIds"] != "*":
@@ -1104,6 +1359,10 @@ def run_history(ck, hist, level_tag="engine"):
       if g["where"] == "userattr":
         a, b = st["rules"][g["id"]], st2["rules"][g["id"]]
         ia, ib = json.loads(a["userAttributes"]), json.loads(b["userAttributes"])
+        if ia["tableId"] in sum_ids:
+          ck.count("eng_summary_userattr_checks")
+          if (ia["tableId"], ia["lookupColId"]) in col_ren:
+            ck.count("eng_summary_lookupColId_to_rename" + ("_with_table_rename" if ia["tableId"] in tab_ren else ""))
         exp = dict(ia)
         exp["tableId"] = tab_ren.get(ia["tableId"], ia["tableId"])
         exp["lookupColId"] = col_ren.get((ia["tableId"], ia["lookupColId"]), ia["lookupColId"])
@@ -1123,6 +1382,13 @@ def run_history(ck, hist, level_tag="engine"):
       if changed:
         ck.count("eng_formula_renamed_" + g["where"])
         ck.nontrivial_case([print_lex(g["lex"], "O"), sorted(map(list, col_ren.items())), g["where"]])
+      ctx_tabs = [ctx["table"], ctx.get("ref")] + list(ctx.get("attrs", {}).values())
+      if sum_col_ren and any(t_ in sum_ids for t_ in ctx_tabs):
+        # does this formula refer to a renamed column OF A SUMMARY TABLE?  (the expectation without the summary
+        # tables' renames differs from the full expectation)
+        part = oracle_expected(g["lex"], ctx, {k: v for k, v in col_ren.items() if k[0] not in sum_ids})[0]
+        if part is not None and part != exp_lex:
+          ck.count("eng_summary_formula_to_rename_%s%s" % (g["where"], "_with_table_rename" if sum_tab_ren else ""))
       if text != print_lex(exp_lex, "O"):
         ck.violation("%s formula not renamed exactly through the engine" % g["where"],
                      "%r with %r (ctx %r) -> %r, expected %r" % (print_lex(g["lex"], "O"), col_ren, ctx, text,
@@ -1242,7 +1508,11 @@ def _history_worker(args):
   rec = Rec()
   ops, expects = [], []
   for _ in range(n):
-    h = gen_history(rng)
+    if seed_str == "fixed-summary":
+      h = fixed_summary_history()
+      rec.count("eng_fixed_summary_history")
+    else:
+      h = gen_history(rng)
     o, e = run_history(rec, h)
     ops += o
     expects += e
@@ -1282,7 +1552,11 @@ def run(ck):
              "same column name in several tables), plus formulas outside the subset and unparsable text; engine level: "
              "documents with ACL resources/rules, user attributes, dropdown conditions on Ref/RefList/Choice columns and "
              "trigger conditions (plain, text and config mode), 8-14 rename steps each (RenameColumn, RenameTable, label "
-             "change, bulk colId update, ModifyColumn colId). non-trivial = a formula in which at least one reference was "
+             "change, bulk colId update, ModifyColumn colId); most documents also have 1-3 SUMMARY tables with ACL resources/"
+             "rules, a user attribute looked up in one, dropdown conditions of Ref/RefList columns pointing to them (choice.X) "
+             "and of a Ref column of a summary table, trigger conditions on them, and steps that rename the SOURCE column of a "
+             "group-by column (by RenameColumn / label / colId update; the summary table id changes in the same user action) "
+             "or a summary table's formula column; one fixed summary-table history on every run. non-trivial = a formula in which at least one reference was "
              "renamed and all clauses were evaluated; distinct by (text, renames, kind)")
   ck.assumptions = [
     "Python's tokenizer/parser, asttokens positions and get_dollar_replacer's view of `$` are parameters (checked "
@@ -1290,6 +1564,13 @@ def run(ck):
     "column ids and new names are ASCII identifiers (Grist sanitises column ids); `$name` needs an ASCII name",
     "ACL resource colIds is a comma separated list without blanks",
     "one rename user action per bundle at engine level (several columns at once only through one BulkUpdateRecord)",
+    "summary-table situations (rules / resources / user attributes / dropdown and trigger conditions on summary tables, "
+    "renames of a group-by column through its source column together with the automatic rename of the summary table): "
+    "which columns and tables a bundle renamed is READ OFF the metadata before/after (keyed by the table id BEFORE the "
+    "bundle); the order of the engine's bookkeeping (rules rewritten before the summary table is renamed) is not "
+    "modelled in Lean - the Lean tie only re-computes each stored formula / colIds / lookupColId from those observed "
+    "renames (same pure functions as for ordinary tables), so these situations are judged by the direct oracle plus "
+    "that per-formula tie; how summary tables and their columns get their new ids is not part of C17",
   ]
   ck.lean(LEAN_MODULES)
   lean_witness(ck)
@@ -1303,9 +1584,10 @@ def run(ck):
   # engine level
   quick = ck.tier == "quick"
   jobs = [("%s/%s/eng/%d" % (ck.pid, ck.seed, i), 1 if quick else 4) for i in range(5 if quick else 40)]
+  jobs.insert(0, ("fixed-summary", 1))      # the fixed witness of the summary-table situations (every run, both tiers)
   import multiprocessing
   with multiprocessing.Pool(4) as pool:
-    results = pool.map(_history_worker, jobs)
+    results = pool.map(_history_worker, jobs, 1)
   ops, expects = [], []
   for events, o, e in results:
     merge_events(ck, events)
@@ -1342,7 +1624,7 @@ def replay(ck, rp):
   elif r.get("level") == "engine":
     ops, expects = run_history(ck, r["history"])
     mism = check_engine_model(ck, ops, expects)
-    if mism:
+    if mism and not ck.has_impl_violation():
       ck.broken("correspondence perform_*_renames vs Grist.PredRename", "replayed mismatch", mism)
   else:
     special_scenarios(ck)
